@@ -86,7 +86,9 @@ ReMatch(r, v) == SeqEnds(r, v, 1..(Len(v) + 1)) # {}
 ReFull(r, v)  == (Len(v) + 1) \in SeqEnds(r, v, {1})
 
 -----------------------------------------------------------------------------
-\* ---- as-implemented regex matching (tag_filters.go), used by the deviations S L E C -------------
+\* ---- as-implemented regex matching (tag_filters.go), used by the deviations S L E C N ---------
+\* S: neither pure literal nor fully anchored   L: fully anchored   E: matches the empty string
+\* C: matching on the escaped stored bytes      N: nil result of !~ under AND (search.go)
 \* tagFilter.Init -> InfluxRegrep -> getRegexpPrefix -> extractRegexpPrefix -> simplifyRegexp:
 \* anchors are stripped ("they will be added later", which was true for the anchored matching of the
 \* code this was lifted from), a trailing literal gets ".*" appended, "lit$" becomes ".*lit$".
@@ -127,14 +129,25 @@ RestMatch(rest, suf) ==
          THEN Len(suf) > Len(rest[2][2]) /\ HasSuf(suf, rest[2][2])
   ELSE ReMatch(rest, suf)
 
-\* does the implemented filter accept the (non-empty, stored) tag value v
-ImplValueMatch(r, v) ==
-  LET s == Simp(r)
+\* The filters run on the STORED form of a value (marshalTagValue escapes separator bytes) and the
+\* expression is escaped the same way (tagCharsRegexpEscaper) -- except the needle of the pure-literal
+\* fast path. esc = TRUE models this; esc = FALSE is the matching on the real characters.
+EscItem(it) == CASE it[1] = "lit" -> <<"lit", Escaped(it[2])>>
+                 [] it[1] = "alt" -> <<"alt", {Escaped(a) : a \in it[2]}>>
+                 [] it[1] = "opt" -> <<"opt", Escaped(it[2])>>
+                 [] OTHER -> it
+EscRe(r) == [i \in 1..Len(r) |-> EscItem(r[i])]
+
+\* does the implemented filter accept the (non-empty) tag value v
+ImplValueMatch(r, v, esc) ==
+  LET s  == Simp(r)
+      ev == IF esc THEN Escaped(v) ELSE v
   IN IF s = <<>> THEN TRUE
-     ELSE IF Len(s) = 1 /\ IsLit(s[1]) THEN HasSub(Escaped(v), s[1][2])   \* bytes.Contains on the stored bytes
-     ELSE LET pre  == IF IsLit(s[1]) THEN s[1][2] ELSE <<>>
-              rest == IF IsLit(s[1]) THEN Tail(s) ELSE s
-          IN HasPre(v, pre) /\ RestMatch(rest, DropN(v, Len(pre)))
+     ELSE IF Len(s) = 1 /\ IsLit(s[1]) THEN HasSub(ev, s[1][2])       \* bytes.Contains(stored, raw needle)
+     ELSE LET es   == IF esc THEN EscRe(s) ELSE s
+              pre  == IF IsLit(es[1]) THEN es[1][2] ELSE <<>>
+              rest == IF IsLit(es[1]) THEN Tail(es) ELSE es
+          IN HasPre(ev, pre) /\ RestMatch(rest, DropN(ev, Len(pre)))
 
 \* RewriteRegexConditions (SELECT only): /^lit$/, /^(a|b)$/, /^a[bc]$/, /^$/ become (in)equalities
 RewritableItem(it) == \/ it[1] \in {"lit", "cls", "dig"}
@@ -145,14 +158,17 @@ Rewritable(r) == HasBol(r) /\ HasEol(r) /\ Len(r) >= 2
 \* constant tables (computed once)
 NonEmptyVals == Vals \ {<<>>}
 MatchSet == TLCEval([r \in Regexes |-> {v \in Vals : ReMatch(r, v)}])
-ImplSet  == TLCEval([r \in Regexes |-> {v \in NonEmptyVals : ImplValueMatch(r, v)}])
+\* design matching but on stored bytes (esc) / as-implemented pipeline, with and without the escaping
+MatchSetE == TLCEval([esc \in BOOLEAN |-> [r \in Regexes |->
+                {v \in NonEmptyVals : IF esc THEN ReMatch(EscRe(r), Escaped(v)) ELSE ReMatch(r, v)}]])
+ImplSet  == TLCEval([esc \in BOOLEAN |-> [r \in Regexes |-> {v \in NonEmptyVals : ImplValueMatch(r, v, esc)}]])
 EmptyOK  == TLCEval({r \in Regexes : ReMatch(r, <<>>)})      \* isAllMatch: regexp.MatchString("")
 \* which deviation governs a regex leaf on a path ("show" = SHOW SERIES/TAG VALUES..., "sel" = SELECT)
 ClsOf(r, path) ==
   IF path = "sel" /\ Rewritable(r) THEN "ok"
   ELSE IF r \in EmptyOK THEN "E"
   ELSE IF HasBol(r) /\ HasEol(r) THEN "L"
-  ELSE IF Len(Simp(r)) = 1 /\ IsLit(Simp(r)[1]) THEN "C"
+  ELSE IF Len(Simp(r)) = 1 /\ IsLit(Simp(r)[1]) THEN "P"      \* pure literal: bytes.Contains, correct
   ELSE "S"
 ClsTab == TLCEval([path \in {"show", "sel"} |-> [r \in Regexes |-> ClsOf(r, path)]])
 
@@ -209,10 +225,12 @@ Leaf(dv, path, m, p) ==
        [] o \in {"=~", "!~"} ->
             LET r   == p[3]
                 c   == ClsTab[path][r]
-                dev == c # "ok" /\ c \in dv
-                pos == IF ~dev THEN ReSet(m, k, r)
-                       ELSE IF c = "E" THEN AllM(m)                 \* isAllMatch
-                       ELSE WithVal(m, k, ImplSet[r])
+                esc == "C" \in dv
+                nt  == IF r \in EmptyOK THEN AllM(m) \ Has(m, k) ELSE {}   \* series without the tag
+                pos == IF c = "ok" THEN ReSet(m, k, r)                      \* rewritten into (in)equalities
+                       ELSE IF c = "E" /\ "E" \in dv THEN AllM(m)           \* isAllMatch
+                       ELSE IF c = "P" \/ (c \in dv /\ c # "E") THEN WithVal(m, k, ImplSet[esc][r]) \cup nt
+                       ELSE WithVal(m, k, MatchSetE[esc][r]) \cup nt
                 neg == AllM(m) \ pos
             IN IF o = "=~" THEN pos
                ELSE IF "N" \in dv /\ path = "show" /\ r \in EmptyOK /\ neg = {} THEN NIL
@@ -250,7 +268,8 @@ LeafClasses(p, path) ==
     [] p[1] \in {"AND", "OR"} -> LeafClasses(p[2], path) \cup LeafClasses(p[3], path)
     [] p[1] \in {"=~", "!~"} ->
          LET c == ClsTab[path][p[3]]
-         IN (IF c = "ok" THEN {} ELSE {c})
+         IN (IF c \in {"S", "L", "E"} THEN {c} ELSE {})
+            \cup (IF c # "ok" THEN {"C"} ELSE {})
             \cup (IF p[1] = "!~" /\ path = "show" /\ p[3] \in EmptyOK THEN {"N"} ELSE {})
     [] OTHER -> {}
 
@@ -394,7 +413,7 @@ ClosedClean == ~open => (pending = {} /\ cache = {})
 SearchExact ==
   \A m \in Msts : \A p \in CheckPreds :
      /\ Search(Dev, "show", m, p) = Brute(m, p)
-     /\ Search(Dev, "sel", m, p) = Brute(m, p)
+     /\ (Dev = {} \/ Search(Dev, "sel", m, p) = Brute(m, p))    \* the paths differ under deviations only
 
 \* listings without a condition report exactly what was written (the tag-value listing reads the
 \* tag->ids items directly: searchTagValuesBySingleKey)
